@@ -2,7 +2,7 @@
    line, `name field field ...`; all parsing and printing is done here, in Gallina, so the OCaml
    driver only moves characters.  Field kinds: decimal number, hex byte string, and lists
    `L:hex:hex...` (`L` = empty list, `L:` = one empty string). *)
-From Scrapli Require Import Bytes Regex PlatformTypes Generated Generic Netconf Channel Replay Queue Telnet NcSession Session Network.
+From Scrapli Require Import Bytes Regex PlatformTypes Generated Generic Netconf Channel Replay Queue Telnet NcSession Session Network SshArgs.
 Open Scope N_scope.
 
 Definition COLON : N := 58.
@@ -379,6 +379,7 @@ Definition dispatch (fs : list bytes) : list bytes :=
   else if beqb name (bs "nc") then run_nc fs
   else if beqb name (bs "c01hyp") then run_c01hyp fs
   else if beqb name (bs "net") then run_net fs
+  else if beqb name (bs "c14") then run_c14 fs
   else [bs "unknown-case"].
 
 Definition run_line (line : bytes) : bytes := unfields (dispatch (fields line)).
